@@ -3,7 +3,7 @@
    property.  Definitions only; proofs in CellsProofs.v. *)
 From Coq Require Import List Bool.
 Import ListNotations.
-From DDP Require Import Gen.Operators Lower.TcTable Lower.LowerTable.
+From DDP Require Import Gen.OperatorEnum Lower.TcTable Lower.LowerTable.
 
 Inductive cell : Set :=
 | CUn (op : unop) (a : ty)
